@@ -199,6 +199,7 @@ func (r *readerAtSource) Close() error {
 type builtSource struct {
 	b       buffer.Buffer
 	closes  func() int32 // nil: nothing to close
+	late    func() int32 // reads of the source after it was closed (nil: not observable)
 	valid   atomic.Int32 // data integrity callbacks (true)
 	invalid atomic.Int32 // data integrity callbacks (false)
 }
@@ -279,13 +280,13 @@ func (s srcSpec) build() *builtSource {
 		bs.b = buffer.NewCASBufferFromReader(hx.Sha("c15", s.data), newReader(), source)
 	case kCASChunks:
 		r := &chunkSource{data: served, chunks: s.chunks, failAfter: failAfter}
-		bs.closes = r.closes.Load
+		bs.closes, bs.late = r.closes.Load, r.readAfter.Load
 		bs.b = buffer.NewCASBufferFromChunkReader(hx.Sha("c15", s.data), r, source)
 	case kValBytes:
 		bs.b = buffer.NewValidatedBufferFromByteSlice(s.data)
 	case kValReaderAt:
 		r := &readerAtSource{data: s.data}
-		bs.closes = r.closes.Load
+		bs.closes, bs.late = r.closes.Load, r.after.Load
 		bs.b = buffer.NewValidatedBufferFromReaderAt(r, int64(len(s.data)))
 	case kProtoMsg:
 		m := &wrapperspb.BytesValue{}
